@@ -122,7 +122,7 @@ def r1_fields(ctx, repo):
 def parse_sql(sql):
     s = " ".join(sql.split())
     d = {"raw": s}
-    m = re.match(r"CREATE TABLE (IF NOT EXISTS )?(\w+) \((.*)\);?$", s, re.I)
+    m = re.match(r"CREATE TABLE (IF NOT EXISTS )?(\w+) \((.*)\)(?: WITHOUT ROWID)?;?$", s, re.I)
     if m:
         d["kind"] = "create"
         d["table"] = m.group(2)
@@ -279,6 +279,18 @@ def r3_read(ctx, repo, cls):
                 if m:
                     tables.add(m.group(1))
     ctx.check(tables >= {"main", "parameters", "costs", "individuals"}, "R3", C, where(mod, fn), "selects the tables %s" % sorted(tables), key="tables")
+    # definitions are restored in the order the rows come back: SELECT without ORDER BY yields insertion (rowid) order
+    # only for rowid tables
+    for k, v in cls.class_attrs.items():
+        if isinstance(v, ast.Constant) and isinstance(v.value, str) and re.match(r"\s*CREATE TABLE", v.value, re.I):
+            tname = re.search(r"CREATE TABLE (?:IF NOT EXISTS )?(\w+)", v.value, re.I).group(1)
+            if tname in ("parameters", "costs") and re.search(r"WITHOUT\s+ROWID", v.value, re.I):
+                sel = [x.value for x in cls.class_attrs.values() if isinstance(x, ast.Constant) and isinstance(x.value, str)
+                       and re.search(r"SELECT .* FROM %s\b" % tname, x.value, re.I)]
+                if not any(re.search(r"ORDER BY", q, re.I) for q in sel):
+                    ctx.violated("R3", "SqliteDataStore(sql)", where(mod, cls.node),
+                                 "table `%s` is WITHOUT ROWID and is read without ORDER BY: rows come back in primary-key (name) order, not in declaration order, "
+                                 "so the restored %s definitions no longer line up with the positions of vector / costs" % (tname, tname), key="row-order:" + tname)
     rebuild = [c for c in calls_in(fn) if (access_path(c.func) or "").endswith("Individual.from_dict")]
     ok = bool(rebuild) and text(rebuild[0].args[0]).startswith("json.loads(") and any(
         (access_path(c.func) or "").endswith(".problem.individuals.append") for c in calls_in(fn))
